@@ -673,10 +673,10 @@ impl Shadow {
                 if obs.ret != "none" && !obs.ret.starts_with("skip") && !obs.ret.starts_with("panic") {
                     if let Some(o) = self.objs.get(t as usize) {
                         if o.dropped == 0 {
-                            // reviving a *dead* object that needs tracing must make the arena report
-                            // Marking.  Dead is known exactly when nothing mutated since this cycle's
+                            // reviving a *dead* object (pointer-free or not: `Context::resurrect` queues
+                            // every unmarked target) must make the arena report Marking.  Dead is known exactly when nothing mutated since this cycle's
                             // marking began: then unreachable objects are precisely the unmarked ones.
-                            if obs.phase_before == CPhase::Marked && !was_mutated && !o.leaf && !reach_before.contains(&t) && obs.phase_after != CPhase::Marking {
+                            if obs.phase_before == CPhase::Marked && !was_mutated && !reach_before.contains(&t) && obs.phase_after != CPhase::Marking {
                                 v("C07", format!("resurrect({p}) of a dead object left the arena {}", obs.phase_after.name()));
                             }
                             if !self.resurrected.contains(&t) {
